@@ -262,3 +262,45 @@ func VerifC05Snapshot() {
 	}
 	vCover("c05-snapshot-end")
 }
+
+// VerifC05Prune: two adds followed by one removal (remove / empty / clear) - the op-kind
+// triples in which pruning decides the outcome - with names long enough for a parent and
+// its child ("a", "a/b"); then every query against the model.
+func VerifC05Prune() {
+	L := vParam("L", 3)
+	t := NewStandardTree()
+	m := &refTree{}
+	var tps [2]string
+	for i := 0; i < 2; i++ {
+		tp := vString("topic", L)
+		vAssume(validName(tp, L))
+		v := 1 + vChoice("val", 2)
+		t.Add(tp, v)
+		m.add(tp, v)
+		tps[i] = tp
+	}
+	v := 1 + vChoice("val", 2)
+	switch vChoice("removal", 3) {
+	case 0:
+		k := vChoice("victim", 2)
+		t.Remove(tps[k], v)
+		m.remove(tps[k], v)
+	case 1:
+		k := vChoice("victim", 2)
+		t.Empty(tps[k])
+		m.empty(tps[k])
+	case 2:
+		t.Clear(v)
+		m.clear(v)
+	}
+	vAssert(noDeadBranches(t.root, true), "emptied branches leave no node behind")
+	vAssert(t.Count() == m.count(), "Count equals the map's number of (topic, value) pairs")
+	w1, w2 := m.union(func(string) bool { return true })
+	sameSet(t.All(), w1, w2, "All")
+	for i := 0; i < 2; i++ {
+		q := tps[i]
+		g1, g2 := m.union(func(x string) bool { return x == q })
+		sameSet(t.Get(q), g1, g2, "Get")
+	}
+	vCover("c05-prune-end")
+}
